@@ -394,16 +394,17 @@ class ResourceManager(object):
         if agent_nodes:
 
             if not rm_info.agent_node_list:
-                for _ in range(agent_nodes):
-                    rm_info.agent_node_list.append(rm_info.node_list.pop())
+                # NOTE: assign a new list, the default is shared by all RMInfos
+                rm_info.agent_node_list = [rm_info.node_list.pop()
+                                           for _ in range(agent_nodes)]
 
             assert agent_nodes == len(rm_info.agent_node_list)
 
         if service_nodes:
 
             if not rm_info.service_node_list:
-                for _ in range(service_nodes):
-                    rm_info.service_node_list.append(rm_info.node_list.pop())
+                rm_info.service_node_list = [rm_info.node_list.pop()
+                                             for _ in range(service_nodes)]
 
             assert service_nodes == len(rm_info.service_node_list)
 
